@@ -144,8 +144,13 @@ func cmdCheck(args []string) {
 	baseCfg := defaultConfig()
 	baseCfg.Thorough = tier == "thorough"
 	baseCfg.Workers = *workers
+	baseCfg.CrossCheck = 10
 	if baseCfg.Thorough {
 		baseCfg.TimeoutMs = 600000
+		baseCfg.CrossCheck = 150
+	}
+	if v := os.Getenv("GOSYM_CROSSCHECK"); v != "" {
+		baseCfg.CrossCheck, _ = strconv.Atoi(v)
 	}
 	init := runInits(L, baseCfg)
 	loadTime := time.Since(start)
@@ -431,6 +436,21 @@ func writeEvidence(id, tier string, seed int, ps *PropSpec, L *Loaded, runs []*H
 			"ssa_instructions": r.Steps, "queries": r.Queries, "solver_s": round2(r.SolveTime.Seconds()), "wall_s": round2(r.Wall.Seconds()),
 			"assert_labels_discharged_by_solver": r.AssertsChecked, "assert_labels_constant_true": r.AssertsTrivial, "reach_labels": r.Reached, "caught_panics": len(r.Panics)})
 	}
+	cross := map[string]interface{}{}
+	crossN := 0
+	agree, unk := map[string]int{}, map[string]int{}
+	for _, r := range runs {
+		crossN += r.CrossChecked
+		for k, n := range r.CrossAgree {
+			agree[k] += n
+		}
+		for k, n := range r.CrossUnknown {
+			unk[k] += n
+		}
+	}
+	cross["obligations_rechecked"] = crossN
+	cross["agreed_unsat"] = agree
+	cross["secondary_unknown"] = unk
 	depg := map[string]bool{}
 	for _, r := range runs {
 		for g := range r.DepGlobals {
@@ -478,7 +498,7 @@ func writeEvidence(id, tier string, seed int, ps *PropSpec, L *Loaded, runs []*H
 			"obligations_discharged":        discharged,
 			"obligations_constant_true":     trivial,
 			"solver_time_s":                 round2(solverTime),
-			"solvers":                       []string{solverVersion(defaultSolver())},
+			"solvers":                       []string{solverVersion(defaultSolver()), "cross-check of a sample of discharged obligations: " + solverVersion("z3") + ", " + solverVersion("cvc5")},
 			"stubs":                         ps.Stubs,
 			"outside_claim":                 ps.Outside,
 			"harnesses":                     hsum,
@@ -488,6 +508,7 @@ func writeEvidence(id, tier string, seed int, ps *PropSpec, L *Loaded, runs []*H
 			"known_findings_reported":       known,
 			"source_files_loaded":           len(L.Files),
 			"dependency_globals_read_with_default_value": depgl,
+			"cross_solver_recheck":                      cross,
 		},
 	}
 	b, _ := json.MarshalIndent(ev, "", " ")
